@@ -773,7 +773,7 @@ def construct(interp, st, cref, args, kwargs, node):
     post = find_method(interp, cref.name, "__post_init__", st)
     if post is not None:
         con = reg.contract_for(post)
-        if con is not None and not con.inline:
+        if con is not None and not con.inline and not reg.may_inline(post):
             res = con.apply_at_call(interp, st, post, [obj], {}, node, None, returns_self=True)
             return res
         env = bind_params(interp, st, post.node, [obj], {}, post.mod, post.cls, node)
